@@ -762,6 +762,40 @@ func (il *inliner) stmtEdit(stmt ast.Stmt, file *ast.File) (string, bool) {
 			}
 		}
 	case *ast.ReturnStmt:
+		if len(x.Results) > 1 {
+			// `return f(a), b, c` with one fresh call and otherwise side-effect-free results
+			idx := -1
+			var fn *types.Func
+			var call *ast.CallExpr
+			for i, r := range x.Results {
+				if f, c := calleeOf(r); f != nil {
+					if idx >= 0 {
+						idx = -2
+						break
+					}
+					idx, fn, call = i, f, c
+				} else if !pureArg(r) {
+					idx = -2
+					break
+				}
+			}
+			if idx >= 0 {
+				return try(fn, call, false, func(pre, block, results string, n int) string {
+					if n != 1 {
+						return ""
+					}
+					var rs []string
+					for i, r := range x.Results {
+						if i == idx {
+							rs = append(rs, results)
+						} else {
+							rs = append(rs, il.text(r))
+						}
+					}
+					return "{ " + pre + block + "; return " + strings.Join(rs, ", ") + " }"
+				})
+			}
+		}
 		if len(x.Results) == 1 {
 			if fn, call := calleeOf(x.Results[0]); fn != nil {
 				fd := il.fresh[fn]
